@@ -1506,6 +1506,7 @@ func (c *Conn) ApiVersions() ([]ApiVersion, error) {
 		return nil, err
 	}
 	defer lock.Unlock()
+	defer deadline.unsetConnReadDeadline()
 
 	errorCode, r, err := c.readApiVersionsResponse(size)
 	if err != nil {
